@@ -164,7 +164,55 @@ def plan_C17(tier, seed):
         assumptions=["TLC", "net/url fragment decoding", "harness pointer escaping / percent-encoding (independent of the repo)"])
 
 
-PLANS = {"C17": plan_C17, "C08": plan_C08, "C11": plan_C11, "C12": plan_C12, "C03": plan_C03, "C06": plan_C06, "C01": plan_C01, "C02": plan_C02, "C07": plan_C07}
+COD_C = {"DEV_OmitEmptyAssertingLists": "FALSE", "DEV_CaseFoldKeys": "FALSE"}
+
+
+def cod_job(prefix, fam, k, inv, workers=6):
+    return tlc("%s_%s_k%d" % (prefix, fam, k), "MC_Codec", dict(COD_C, Family=q(fam), K=k), inv + ["Emit"], workers=workers)
+
+
+def plan_C19(tier, seed):
+    j = cod_job("c19", "PO", 2 if tier == "quick" else 3, ["OrderRefines"], workers=8)
+    return dict(
+        tlc=[j], parallel=1,
+        replay=[dict(name="c19_replay", family="order", inputs=[j["name"]])],
+        rule="property sets of size 0..3 (thorough 0..4) over 8 names whose byte order differs from other orders (upper/lower "
+             "case, prefixes, empty, non-ASCII, '10' vs '9') x all PropertyOrder lists of length <= 2 (thorough 3) over those "
+             "names and 2 absent ones (permutations, subsets, supersets, duplicates); one property carries a nested schema with "
+             "its own order; expected key sequence = KeyOrder (L0), checked equal to orderedProperties (L1) by TLC; the real "
+             "bytes are token-scanned and marshaled 30 more times for byte equality; non-trivial = >= 2 properties or a "
+             "duplicate (error) case; distinct by (props, order)",
+        exhaustive=True, assumptions=["TLC", "pools.py byte-order table", "encoding/json token scanner"])
+
+
+def plan_C05(tier, seed):
+    j = cod_job("c05", "RT", 1 if tier == "quick" else 2, ["RoundTripKeepsMeaning"], workers=8)
+    return dict(
+        tlc=[j], parallel=1,
+        replay=[dict(name="c05_replay", family="roundtrip", inputs=[j["name"]])],
+        rule="Schema VALUES built as Go literals: every exported field in every state its type allows (nil / empty / "
+             "one / two elements; const pointer-to-nil; default null; Type xor Types incl. empty; Items xor ItemsArray; "
+             "Defs xor Definitions; dependency maps; Extra), singly, nested under properties/items/allOf and (thorough) in "
+             "pairs; checks: Marshal emits exactly the keywords Codec.tla predicts, Unmarshal(Marshal(s)) marshals to the same "
+             "bytes, and the verdict vectors of s, of its round trip and of L0 agree on the instance pool; non-trivial = "
+             "discriminating vector; distinct by marshaled bytes",
+        exhaustive=True, assumptions=["TLC", "harness builder of Schema literals", "encoding/json"])
+
+
+def plan_C18(tier, seed):
+    j = cod_job("c18", "DK", 1 if tier == "quick" else 2, ["DecorationInert"], workers=6)
+    return dict(
+        tlc=[j], parallel=1,
+        replay=[dict(name="c18_replay", family="eval", inputs=[j["name"]])],
+        rule="base schemas x decoration at the root or at the first subschema: every documented non-asserting keyword with "
+             "well-typed values (incl. contentSchema:false, defaults that would not validate, unreferenced $defs/definitions "
+             "entries that are false) and unknown keyword names incl. names differing from a keyword only by case ('Type', "
+             "'MINIMUM', '$REF', 'properties ' ...) with values that would assert if read as the keyword; expected verdict "
+             "vector = that of the undecorated base; Unmarshal must accept; non-trivial = discriminating vector",
+        exhaustive=True, assumptions=["TLC", "encoding/json"])
+
+
+PLANS = {"C05": plan_C05, "C18": plan_C18, "C19": plan_C19, "C17": plan_C17, "C08": plan_C08, "C11": plan_C11, "C12": plan_C12, "C03": plan_C03, "C06": plan_C06, "C01": plan_C01, "C02": plan_C02, "C07": plan_C07}
 
 
 def plan(prop, tier, seed):
